@@ -4,7 +4,7 @@ CONSTANT PermSel = "few"
 CONSTANT ResVals <- Res2
 CONSTANT OffVals = {0}
 CONSTANT Thrs <- ThrSym
-CONSTANT MaxIters = {0, 3}
+CONSTANT MaxIters = {0, 2}
 CONSTANT MaxDrops = 0
 CONSTANT WithFail = FALSE
 CONSTANT MinGood = 1
